@@ -11,6 +11,7 @@ import time
 
 
 def run_one(sc, bound=75):
+    bound *= float(os.environ.get('VERIF_TIME_SCALE', '1'))
     env = dict(os.environ)
     scratch = tempfile.mkdtemp(prefix='verif-real-', dir='/var/tmp')
     env['VERIF_SCRATCH'] = scratch
